@@ -140,3 +140,11 @@ def run(rep, tier, seed, model, replay):
     else:
         cases = gen_cases(tier, seed)
     run_cases(rep, cases, eval_case, shrinkfn=shrink_case)
+
+
+def xcheck_cmds(seed):
+    """small commands re-evaluated inside Coq with vm_compute (validates extraction + driver glue)"""
+    rng = random.Random(77 + seed)
+    sa = gen_shell(rng, l=1, kmax=1, mmax=1, sph=False, bits=3)
+    sb = gen_shell(rng, l=1, kmax=1, mmax=2, sph=False, bits=3)
+    return ["(1 %s %s)" % (sa.sx(), sb.sx())]
